@@ -220,6 +220,8 @@ func main() {
 	switch os.Args[1] {
 	case "worker":
 		workerMain()
+	case "crashchild":
+		crashChild(os.Args[2:])
 	case "exec":
 		// in-process, for replay: prints "id impl oracle"
 		data, err := os.ReadFile(os.Args[2])
